@@ -234,8 +234,28 @@ def oracle(rc):
         for u in ref:
             if not (got[u] == ref[u]):
                 raise Violation("order_dependent", "%s: task %s differs from the one parsed in emission order" % (what, u))
+        # parse_stream over a lazily produced stream (a log being tailed): a completed task comes out
+        # when its last message has gone in, not later
+        consumed = [0]
+
+        def feed(order=order):
+            for m in order:
+                consumed[0] += 1
+                yield m
+        last_at = {}
+        for i, m in enumerate(order):
+            last_at[m["task_uuid"]] = i + 1
+        streamed = []
         try:
-            streamed = list(Parser.parse_stream(order))
+            for t in Parser.parse_stream(feed()):
+                streamed.append(t)
+                u = next(iter(dict(t._nodes).values())).task_uuid
+                if t.is_complete() and consumed[0] != last_at.get(u):
+                    raise Violation(("stream_timing", {"dir": "late" if consumed[0] > last_at.get(u, 0) else "early"}),
+                                    "%s: parse_stream yielded task %s after consuming %d messages; its last message "
+                                    "is number %d of the stream" % (what, u, consumed[0], last_at.get(u, -1)))
+        except Violation:
+            raise
         except Exception as e:  # noqa
             raise Violation(("parser_raised", {"exc": type(e).__name__}), "%s: parse_stream raised %s" % (what, e))
         if len(streamed) != len(ref) or any(not any(t == r for r in ref.values()) for t in streamed):
